@@ -7,19 +7,21 @@ wt=$1; mdir=$wt/mutants/$2; id=$3; prop=$4
 out=/verif/seeded/$id; mkdir -p $out
 log=$out/confirm.log; : > $log
 cd $wt || exit 3
-git checkout -q -- . ; git apply --check $mdir/patch.diff || { echo "$id: patch does not apply"; exit 3; }
-[ -d _build ] || cmake -G Ninja -S . -B _build -DCMAKE_BUILD_TYPE=RelWithDebInfo >>$log 2>&1
-cmake --build _build -- -k 0 >>$log 2>&1
+git checkout -q -- include src test ; git apply --check $mdir/patch.diff || { echo "$id: patch does not apply"; exit 3; }
+# a build directory of our own (some worktrees carry a stale tracked _build configured for /repo)
+B=_cbuild
+[ -d $B ] || cmake -G Ninja -S . -B $B -DCMAKE_BUILD_TYPE=RelWithDebInfo >>$log 2>&1
+cmake --build $B -- -k 0 >>$log 2>&1
 echo "== demonstration WITHOUT the change" >>$log
-( cd $mdir && timeout 900 bash ./run_demo.sh $wt/_build ) >>$log 2>&1; rc_clean=$?
+( cd $mdir && timeout 900 bash ./run_demo.sh $wt/$B ) >>$log 2>&1; rc_clean=$?
 git apply $mdir/patch.diff
-cmake --build _build -- -k 0 >>$log 2>&1
+cmake --build $B -- -k 0 >>$log 2>&1
 echo "== existing test suite WITH the change" >>$log
-ctest --test-dir _build -j8 --timeout 900 >>$log 2>&1; rc_tests=$?
+ctest --test-dir $B -j8 --timeout 900 >>$log 2>&1; rc_tests=$?
 echo "== demonstration WITH the change" >>$log
-( cd $mdir && timeout 900 bash ./run_demo.sh $wt/_build ) >>$log 2>&1; rc_mut=$?
-git checkout -q -- .
-cmake --build _build -- -k 0 >>$log 2>&1
+( cd $mdir && timeout 900 bash ./run_demo.sh $wt/$B ) >>$log 2>&1; rc_mut=$?
+git checkout -q -- include src test
+cmake --build $B -- -k 0 >>$log 2>&1
 cp $mdir/patch.diff $out/patch.diff
 mkdir -p $out/demo; cp -r $mdir/* $out/demo/ 2>/dev/null; rm -f $out/demo/patch.diff
 echo "$id prop=$prop demo_without=$rc_clean tests_with=$rc_tests demo_with=$rc_mut" | tee -a $log
